@@ -36,6 +36,7 @@ type c17Lattice struct {
 	Chain    int  `json:"chain"`    // keys 0..Chain are derived; 0 = no guard (divergent)
 	TwoRules bool `json:"twoRules"` // a second rule derives a smaller value for the same key (the merge keeps the larger)
 	Plain    bool `json:"plain"`    // control: the same program without the merge declaration
+	Pad      int  `json:"pad,omitempty"` // extra facts pad(1..Pad) in the program text: they use up part of the limit before the chain's stratum starts
 	Ascend   bool `json:"ascend"`   // the rule raises the value of the SAME key (an ascending chain in the lattice: one stored fact, replaced every round)
 }
 
@@ -53,7 +54,7 @@ func (c17) Cases(tier string) int {
 func (c17) Describe() core.Info {
 	return core.Info{
 		Level: "exploration",
-		Rule: "typed random programs WITHOUT termination guards (unbounded fn:plus / fn:mult / fn:list:cons through recursion) mixed with terminating ones, base facts preloaded, evaluated with WithCreatedFactLimit(L), L in {1,2,5,20,100}, on every writable store kind behind a counting wrapper; every 25th case is a counting chain level(N,D) (guarded to 3..4000 keys or unguarded, one or two rules) on a predicate declared with fundep + merge (facts merged per key through a deferred lattice predicate), or the same chain without the declaration as control: one fresh key per round (or, in a third of them, one key whose value rises every round: an ascending chain in the lattice, a single stored fact replaced again and again), so only a limit on created facts can stop it; a nil error there requires every level(n,n) up to the guard. Decided on logical steps: the wrapper aborts the run when successful Adds exceed B = (rules+3)*(L+1)*(strata+1) (violation: unbounded creation); a nil error requires the store to equal the reference model, which is computed with a bound of (rules+3)*(L+1)+50 derived facts (reference larger => the engine must have returned an error, because its own per-join/per-round/per-store checks cap what an error-free run can create). Non-trivial: program diverges (reference exceeds its bound) or its number of derived facts is within +-3 of L; distinct by (program, L, store).",
+		Rule: "typed random programs WITHOUT termination guards (unbounded fn:plus / fn:mult / fn:list:cons through recursion) mixed with terminating ones, base facts preloaded, evaluated with WithCreatedFactLimit(L), L in {1,2,5,20,100}, on every writable store kind behind a counting wrapper; every 10th case is a counting chain level(N,D) (guarded to 3..4000 keys or unguarded, one or two rules) on a predicate declared with fundep + merge (facts merged per key through a deferred lattice predicate), or the same chain without the declaration as control: one fresh key per round (or, in a third of them, one key whose value rises every round: an ascending chain in the lattice, a single stored fact replaced again and again), so only a limit on created facts can stop it; 0-3 further facts pad(i) are written in the program and in half of these cases L is exactly (or one more than) the number of facts written in the program, i.e. the budget is used up when the chain's stratum starts; a nil error there requires every level(n,n) up to the guard. Decided on logical steps: the wrapper aborts the run when successful Adds exceed B = (rules+3)*(L+1)*(strata+1) (violation: unbounded creation); a nil error requires the store to equal the reference model, which is computed with a bound of (rules+3)*(L+1)+50 derived facts (reference larger => the engine must have returned an error, because its own per-join/per-round/per-store checks cap what an error-free run can create). Non-trivial: program diverges (reference exceeds its bound) or its number of derived facts is within +-3 of L; distinct by (program, L, store).",
 		Assumptions: []string{"an error on a small terminating program is not judged (the property does not exclude it); it is counted", "B is derived from the per-join, per-round and per-store limit checks of the loop and is deliberately generous"},
 		PerCaseTimeout: 120e9,
 	}
@@ -77,9 +78,13 @@ func (c17) Gen(r *rand.Rand, tier string, i int) any {
 		}
 		return c17Case{Prog: p, Limit: []int{5, 20, 50, 100}[r.Intn(4)], Kind: engineStoreKinds[r.Intn(len(engineStoreKinds))], Text: progText(p)}
 	}
-	if i%25 == 3 {
-		l := &c17Lattice{Chain: []int{0, 3, 10, 30, 150, 1000, 4000}[r.Intn(7)], TwoRules: r.Intn(2) == 0, Plain: r.Intn(5) == 0, Ascend: r.Intn(3) == 0}
+	if i%10 == 3 {
+		l := &c17Lattice{Chain: []int{0, 3, 10, 30, 150, 1000, 4000}[r.Intn(7)], TwoRules: r.Intn(2) == 0, Plain: r.Intn(5) == 0, Ascend: r.Intn(3) == 0, Pad: r.Intn(4)}
 		c := c17Case{Limit: []int{1, 2, 5, 20, 100}[r.Intn(5)], Kind: engineStoreKinds[r.Intn(len(engineStoreKinds))], Lattice: l}
+		if r.Intn(2) == 0 {
+			// boundary: the facts written in the program use up the limit exactly (or all but one) before the chain starts
+			c.Limit = 1 + l.Pad + r.Intn(2)
+		}
 		c.Text = c17LatticeText(*l)
 		return c
 	}
@@ -136,6 +141,9 @@ func c17LatticeText(l c17Lattice) string {
 	}
 	if l.TwoRules {
 		t += "level(N, D) :- level(M, C), " + guard + "N = fn:plus(M, 1), D = C.\n"
+	}
+	for i := 1; i <= l.Pad; i++ {
+		t += fmt.Sprintf("pad(%d).\n", i)
 	}
 	if !l.Plain {
 		t += "deeper(D1, D2, D) :- D1 < D2, D = D2.\ndeeper(D1, D2, D) :- D2 <= D1, D = D1.\n"
